@@ -533,3 +533,38 @@ func TestNamedResultsAtReturn(t *testing.T) {
 		}
 	}
 }
+
+const srcClosure = `package fix
+func sink()
+func g(p *int, n int) {
+	ok := false
+	check := func(limit int) bool {
+		if p == nil {
+			return false
+		}
+		ok = true
+		return n < limit
+	}
+	if !check(10) {
+		return
+	}
+	sink()
+	_ = ok
+}`
+
+func TestInlineClosure(t *testing.T) {
+	f := fixture(t, srcClosure, "g")
+	res, err := Analyze(f, Config{NoHavoc: true, InlineClosures: true, Inline: func(*ast.CallExpr, *types.Func) *Func { return nil }})
+	if err != nil {
+		t.Fatal(err)
+	}
+	sinks := callsNamed(f, "sink")
+	if len(res.At[sinks[0]]) == 0 {
+		t.Fatal("sink unreachable")
+	}
+	for _, st := range res.At[sinks[0]] {
+		if !hasFact(st, "nil:p", False) || !hasFact(st, "v:ok", True) {
+			t.Errorf("closure not interpreted in place: %v", st.Facts())
+		}
+	}
+}
